@@ -464,6 +464,13 @@ func genCase(c *hx.Ctx) {
 			gs = append(gs, g)
 		}
 	}
+	if len(gs) == 0 { // no group drawn: take one, so that empty lists stay at the share totalLen gives them
+		n := p.names[r.Intn(len(p.names))]
+		if n == "" {
+			n = p.names[len(p.names)-1]
+		}
+		gs = append(gs, group{b6.FeatureType(r.Intn(4)), n})
+	}
 	total := totalLen(c)
 	for gi, g := range gs {
 		if total == 0 {
